@@ -438,11 +438,27 @@ def op_alphabet():
 EXPECTED_ORDER = ['mkstemp', 'fetch', 'read', 'write', 'close', 'rename', 'open:r']
 
 
-def crash_points(ctx, prior_ops, target, stream):
-    """run `prior_ops` normally, then `target` (a load) in a forked child killed at its j-th boundary, for every j"""
+def other_device_tmp():
+    """a directory for temporary files on ANOTHER file system than the one the scratch stores live on (tmpfs /dev/shm against the disk), or None"""
+    try:
+        here = os.stat(tempfile.gettempdir()).st_dev
+        for cand in ('/dev/shm', '/run/shm', '/var/tmp', os.path.expanduser('~')):
+            if os.path.isdir(cand) and os.access(cand, os.W_OK) and os.stat(cand).st_dev != here:
+                return tempfile.mkdtemp(prefix='verif-c07-tmp-', dir=cand)
+    except OSError:
+        pass
+    return None
+
+
+def crash_points(ctx, prior_ops, target, stream, tmp_elsewhere=None):
+    """run `prior_ops` normally, then `target` (a load) in a forked child killed at its j-th boundary, for every j;
+    `tmp_elsewhere`: the process's temporary directory (TMPDIR) is this directory, which lies on another file system than the store"""
     install()
 
     def child_run(abs_dir, kill_at, report_fd):
+        if tmp_elsewhere:
+            os.environ['TMPDIR'] = tmp_elsewhere
+            tempfile.tempdir = tmp_elsewhere
         trace = []
         plan_holder = {}
         store, rem = make_store(abs_dir, plan_holder)
@@ -586,13 +602,16 @@ def crash_points(ctx, prior_ops, target, stream):
                 ty = target[1]
                 rel = target[2] or max(TAGS[ty])
                 try:
-                    got = do_load(store, ty, rel)
-                    if got != payload_sig(ty, rel):
+                    done, got = bounded(lambda: do_load(store, ty, rel), RELOAD_LIMIT)
+                    if not done:
+                        prob = f'healthy reload after the kill did not return within {RELOAD_LIMIT} s (something the dead loader left behind blocks it)'
+                    elif got != payload_sig(ty, rel):
                         prob = f'healthy reload returned {got} != {payload_sig(ty, rel)}'
                 except Exception as e:  # noqa
                     prob = f'healthy reload failed: {type(e).__name__}: {e}'
             if prob:
-                ctx.violation(f'crash:{trace[j - 1][0]}', {'case': {'kind': 'crash', 'prior_ops': prior_ops, 'target': target, 'kill_at_boundary': j},
+                ctx.violation(f'crash:{trace[j - 1][0]}', {'case': {'kind': 'crash', 'prior_ops': prior_ops, 'target': target, 'kill_at_boundary': j,
+                                                                    'tmpdir_on_another_device': bool(tmp_elsewhere)},
                                                           'boundaries': kinds, 'impl': prob, 'trace_discipline': undisciplined or 'holds',
                                                           'theorem': 'Hpv.Props.C07.no_incomplete_file / any_program_no_incomplete_file / later_load_succeeds'})
                 return
@@ -604,6 +623,29 @@ def crash_points(ctx, prior_ops, target, stream):
                                                       'broken_obligation': undisciplined,
                                                       'theorem': 'Hpv.Props.C07.any_program_no_incomplete_file (hypothesis Disciplined, evaluated on the observed trace)'},
                       no_input=True)
+
+
+RELOAD_LIMIT = 25        # seconds a load from a healthy remote may take before it counts as "does not succeed" (it takes milliseconds)
+
+
+def bounded(fn, seconds):
+    """(True, fn()) - re-raising what fn raised - or (False, None) when fn has not returned after `seconds` (it is left behind in a daemon thread)"""
+    import threading
+    box = {}
+
+    def work():
+        try:
+            box['value'] = fn()
+        except BaseException as e:  # noqa
+            box['error'] = e
+    th = threading.Thread(target=work, daemon=True)
+    th.start()
+    th.join(seconds)
+    if th.is_alive():
+        return False, None
+    if 'error' in box:
+        raise box['error']
+    return True, box['value']
 
 
 # ------------------------------------------------------------------ (3) schedules
@@ -1042,6 +1084,16 @@ def run(ctx):
     for target in targets:
         for prior in (priors if thorough else priors[:2]):
             crash_points(ctx, prior, target, 'crash-points')
+    # the same with the process's TMPDIR on another file system than the store (a rename from there cannot be atomic)
+    elsewhere = other_device_tmp()
+    if elsewhere:
+        try:
+            for target in targets[:2] + targets[4:5]:
+                crash_points(ctx, [], target, 'crash-points.tmpdir-on-another-device', tmp_elsewhere=elsewhere)
+        finally:
+            shutil.rmtree(elsewhere, ignore_errors=True)
+    else:
+        ctx.count('crash.no-second-file-system-available')
     # (3) schedules
     schedules(ctx, rng, thorough)
 
@@ -1052,7 +1104,12 @@ def replay(ctx, data):
     if c['kind'] == 'history':
         run_history(ctx, c['ops'], c['relative'], 'replay')
     elif c['kind'] == 'crash':
-        crash_points(ctx, c['prior_ops'], c['target'], 'replay')
+        elsewhere = other_device_tmp() if c.get('tmpdir_on_another_device') else None
+        try:
+            crash_points(ctx, c['prior_ops'], c['target'], 'replay', tmp_elsewhere=elsewhere)
+        finally:
+            if elsewhere:
+                shutil.rmtree(elsewhere, ignore_errors=True)
     elif c['kind'] == 'github':
         github_layer(ctx, ctx.rng, False)
     elif c['kind'] == 'configure':
